@@ -320,6 +320,68 @@ def float_time(t_rel):
     return BASE + t_rel / float(Q)      # exact: quarter seconds
 
 
+def loader_tasks(case, root, cache_dir, link):
+    """Write mapproxy.yaml + seed.yaml for the case and let the real configuration loader build the cleanup tasks
+    (complete_extent, coverage, levels, remove time and the tile manager are then the loader's)."""
+    import yaml
+    from mapproxy.seed.config import load_seed_tasks_conf
+    from mapproxy.config.loader import load_configuration
+    b = case['backend']
+    bbox, ts, ress = GRIDS[case['grid']]
+    if b.startswith('file:'):
+        cc = {'type': 'file', 'directory': cache_dir, 'directory_layout': b.split(':')[1]}
+    elif b == 'sqlite':
+        cc = {'type': 'sqlite', 'directory': os.path.dirname(cache_dir)}      # the loader appends the grid name
+    elif b == 'gpkglevel':
+        cc = {'type': 'geopackage', 'directory': os.path.dirname(cache_dir), 'levels': True, 'table_name': 'tiles_tbl'}
+    elif b == 'compact2':
+        cc = {'type': 'compact', 'version': 2, 'directory': cache_dir}
+    else:
+        raise ValueError('no loader configuration for ' + b)
+    mp = {'services': {'tms': {}},
+          'grids': {'gg': {'srs': 'EPSG:3857', 'bbox': list(bbox), 'res': list(ress), 'origin': 'll', 'tile_size': [ts, ts]}},
+          'caches': {'c': {'grids': ['gg'], 'sources': [], 'cache': cc, 'meta_size': list(case['meta']), 'format': 'image/png',
+                           'link_single_color_images': bool(link)}},
+          'layers': [{'name': 'c', 'title': 'c', 'sources': ['c']}],
+          'globals': {'cache': {'base_dir': os.path.join(root, 'base'), 'lock_dir': os.path.join(root, 'locks'),
+                                'tile_lock_dir': os.path.join(root, 'tlocks')}}}
+    t = case['task']
+    cl = {'caches': ['c'], 'grids': ['gg'], 'levels': list(t['levels'])}
+    if t['all']:
+        cl['remove_all'] = True
+    else:
+        stamp = os.path.join(root, 'stamp')
+        with open(stamp, 'w') as f:
+            f.write('x')
+        set_mtime(stamp, t['T'])
+        cl['remove_before'] = {'mtime': stamp}
+    seed = {'cleanups': {'cl': cl}}
+    if not t['complete']:
+        boxes = task_boxes(t)
+        if len(boxes) == 1:
+            seed['coverages'] = {'cov': {'bbox': boxes[0], 'srs': 'EPSG:3857'}}
+        else:
+            import shapely.geometry
+            import shapely.ops
+            wkt = os.path.join(root, 'coverage.txt')
+            with open(wkt, 'w') as f:
+                f.write(shapely.ops.unary_union([shapely.geometry.box(*c) for c in boxes]).wkt + '\n')
+            seed['coverages'] = {'cov': {'datasource': wkt, 'srs': 'EPSG:3857'}}
+        cl['coverages'] = ['cov']
+    mpf, sf = os.path.join(root, 'mapproxy.yaml'), os.path.join(root, 'seed.yaml')
+    with open(mpf, 'w') as f:
+        yaml.safe_dump(mp, f)
+    with open(sf, 'w') as f:
+        yaml.safe_dump(seed, f)
+    conf = load_seed_tasks_conf(sf, load_configuration(mpf, seed=True))
+    tasks = conf.cleanups()
+    if len(tasks) != 1:
+        raise RuntimeError('loader built %d tasks' % len(tasks))
+    if os.path.realpath(getattr(tasks[0].tile_manager.cache, 'cache_dir', cache_dir)) != os.path.realpath(cache_dir):
+        raise RuntimeError('loader uses cache directory %r' % tasks[0].tile_manager.cache.cache_dir)
+    return tasks
+
+
 def run_impl(ctx, case, interrupt_at=None):
     """Fill a real cache, run the real cleanup, observe.  Returns dict(survived, dirs, walked, raised).
     interrupt_at=k: run with a progress store, the first run dies (KeyboardInterrupt) when it starts to clean the
@@ -347,6 +409,8 @@ def run_impl(ctx, case, interrupt_at=None):
     b = case['backend']
     root = ctx.tmpdir('c12')
     cache_dir = os.path.join(root, 'cache')
+    if case.get('via_loader') and b in ('sqlite', 'gpkglevel'):
+        cache_dir = os.path.join(root, 'cache', 'gg')
     grid = make_grid(case['grid'])
     paths = fill(case, cache_dir, grid)
     link = any(e.get('link') is not None for e in case['entries'])
@@ -355,7 +419,9 @@ def run_impl(ctx, case, interrupt_at=None):
     tm = TileManager(grid, cache, [], 'png', locker=TileLocker(os.path.join(root, 'locks'), 10, 'c12'),
                      meta_size=tuple(case['meta']))
     tasks = []
-    for t in case.get('tasks') or [case['task']]:
+    if case.get('via_loader'):
+        tasks = loader_tasks(case, root, cache_dir, link)
+    for t in ([] if case.get('via_loader') else case.get('tasks') or [case['task']]):
         cov = make_coverage(t, grid.srs)
         tasks.append(CleanupTask({'name': 'c12', 'cache_name': 'c', 'grid_name': 'g'}, tm, list(t['levels']),
                                  float_time(t['T']), t['all'], cov, complete_extent=t['complete']))
@@ -469,12 +535,49 @@ def meta_main(case, x, y, l):
     return (x // mx) * mx, (y // my) * my, mx, my
 
 
-def meta_intersects(case, x, y, l):
+def meta_intersects(case, x, y, l, task=None):
     bbox, _, _, spans, _ = grid_info(case['grid'])
     x0, y0, mx, my = meta_main(case, x, y, l)
     s = spans[l]
     mb = (bbox[0] + x0 * s, bbox[1] + y0 * s, bbox[0] + (x0 + mx) * s, bbox[1] + (y0 + my) * s)
-    return any(mb[0] < c[2] and mb[2] > c[0] and mb[1] < c[3] and mb[3] > c[1] for c in task_boxes(case['task']))
+    return any(mb[0] < c[2] and mb[2] > c[0] and mb[1] < c[3] and mb[3] > c[1] for c in task_boxes(task or case['task']))
+
+
+def spec_removes(case, t, e):
+    """Does the property statement want tile entry e removed by task t (at the boundary the task's strategy states)."""
+    b = case['backend']
+    strat = strategy_of(b, t['complete'])
+    if e['l'] not in t['levels'] or not meta_intersects(case, e['x'], e['y'], e['l'], t):
+        return False
+    if t['all'] or not stores_timestamp(b):
+        return True
+    sec = e['t'] // Q
+    return {'dir': e['t'] < t['T'], 'cache': sec < t['T'] // Q, 'walk': sec * Q <= t['T']}[strat]
+
+
+def oracle_several(ctx, case, obs):
+    """Several tasks in one cleanup() call: a tile goes iff the statement wants it removed by one of the tasks."""
+    rep = {'case': case, 'observed': obs}
+    b = case['backend']
+    for e, alive in zip(case['entries'], obs['survived']):
+        if e['kind'] != 'tile':
+            continue
+        wanted = [i for i, t in enumerate(case['tasks']) if spec_removes(case, t, e)]
+        if not alive and not wanted:
+            ctx.fail('removed-too-much,several-tasks', 'tile that no task of the run selects (level, age at that task\'s remove time, '
+                     'coverage) was removed: %r; tasks %r' % (e, case['tasks']), rep)
+            return
+        if alive and wanted:
+            ts = [case['tasks'][i] for i in wanted]
+            if not any(t['all'] or supports_timestamp(b) for t in ts):
+                continue          # only tasks the configuration loader would refuse
+            if e['dim'] != 0:
+                ctx.fail('F15-dimension-tiles-survive,strategy=%s' % strategy_of(b, ts[0]['complete']),
+                         'tile stored below a dimension directory survives: %r' % (e,), rep)
+            else:
+                ctx.fail('old-tile-survives,several-tasks', 'tile that task %d of the run has to remove survives: %r; tasks %r' % (
+                    wanted[0], e, case['tasks']), rep)
+                return
 
 
 def oracle(ctx, case, obs):
@@ -658,7 +761,7 @@ def gen_case(rng, backend=None, grid=None, force=None):
                 xs = [-2, nx + 2]
             cov = [bbox[0] + xs[0] * half, bbox[1] + ys[0] * half, bbox[0] + xs[1] * half, bbox[1] + ys[1] * half]
     covs = None
-    if not complete and grid != 'deep' and rng.random() < 0.35:
+    if not complete and grid != 'deep' and (force.get('border_polygon') or rng.random() < 0.35):
         # polygon coverage: union of two boxes whose edges lie in the middle of the finest tiles (never on an edge)
         nx = (bbox[2] - bbox[0]) // half
         ny = (bbox[3] - bbox[1]) // half
@@ -667,6 +770,11 @@ def gen_case(rng, backend=None, grid=None, force=None):
             xs = sorted(rng.sample(range(1, nx, 2), 2)) if nx >= 4 else [1, nx - 1]
             ys = sorted(rng.sample(range(1, ny, 2), 2)) if ny >= 4 else [1, ny - 1]
             covs.append([bbox[0] + xs[0] * half, bbox[1] + ys[0] * half, bbox[0] + xs[1] * half, bbox[1] + ys[1] * half])
+        if force.get('border_polygon') or rng.random() < 0.3:
+            # an L along the south and west borders: not a rectangle, but its bounding box is the bbox of the grid
+            xm = rng.randrange(1, nx, 2) if nx >= 2 else 1
+            ym = rng.randrange(1, ny, 2) if ny >= 2 else 1
+            covs = [[bbox[0], bbox[1], bbox[2], bbox[1] + ym * half], [bbox[0], bbox[1], bbox[0] + xm * half, bbox[3]]]
         cov = [min(c[0] for c in covs), min(c[1] for c in covs), max(c[2] for c in covs), max(c[3] for c in covs)]
     if not complete:
         # keep the coverage inside the grid: where a meta tile overhangs the grid (grid size not a multiple of the
@@ -1022,10 +1130,28 @@ def run(ctx):
                                   {'kind': 'tile', 'dim': 0, 'l': 1, 'x': 1, 'y': 0, 't': 200},
                                   {'kind': 'tile', 'dim': 0, 'l': 1, 'x': 0, 'y': 0, 't': 120},
                                   {'kind': 'tile', 'dim': 0, 'l': 0, 'x': 0, 'y': 0, 't': 120}]})
+    for b in ('file:tc', 'sqlite', 'file:quadkey'):        # two tile walks over one tile manager with different remove times
+        for T1, T2 in ((100, 300), (300, 100)):
+            multi.append({'backend': b, 'grid': 'g3', 'meta': [1, 1], 'guarded': True, 'concurrency': 1,
+                          'tasks': [{'levels': [2], 'T': T1, 'all': False, 'complete': False, 'cov': [0, 0, 512, 1024]},
+                                    {'levels': [2], 'T': T2, 'all': False, 'complete': False, 'cov': [512, 0, 1024, 1024]}],
+                          'entries': [{'kind': 'tile', 'dim': 0, 'l': 2, 'x': x, 'y': y, 't': 200} for x, y in ((0, 0), (1, 3), (2, 1), (3, 2))] +
+                                     [{'kind': 'tile', 'dim': 0, 'l': 2, 'x': x, 'y': y, 't': 40} for x, y in ((0, 1), (3, 3))] +
+                                     [{'kind': 'tile', 'dim': 0, 'l': 2, 'x': x, 'y': y, 't': 400} for x, y in ((1, 1), (2, 2))]})
+    # per-level sqlite: removing level 1 / 2 entirely must leave the files of levels 10.. / 20.. alone
+    for levels in ([1], [0, 1, 9]):
+        multi.append({'backend': 'sqlite', 'grid': 'deep', 'meta': [2, 2], 'guarded': True, 'concurrency': 1,
+                      'tasks': [{'levels': levels, 'T': 160, 'all': True, 'complete': True, 'cov': [0, 0, 262144, 262144]}],
+                      'entries': [{'kind': 'tile', 'dim': 0, 'l': l, 'x': 1, 'y': 1, 't': 120} for l in (1, 9, 10, 11)] +
+                                 [{'kind': 'tile', 'dim': 0, 'l': 0, 'x': 0, 'y': 0, 't': 120},
+                                  {'kind': 'beside', 'l': 1, 'n': 1, 't': 120}, {'kind': 'beside', 'l': 10, 'n': 2, 't': 120}]})
     for _ in range(ctx.n(25, 250)):
         case = gen_case(rng)
         other = gen_case(rng, backend=case['backend'], grid=case['grid'], force={'meta': tuple(case['meta'])})
         case['tasks'] = [case.pop('task'), other['task']]
+        if 'tz' not in case:
+            # clearly different remove times for the tasks of one tile manager
+            case['tasks'][1]['T'] = max(case['tasks'][0]['T'] + rng.choice([-36, -8, 8, 36]), 0)
         if rng.random() < 0.3:
             case['tasks'].append(dict(case['tasks'][0], all=not case['tasks'][0]['all'] or not supports_timestamp(case['backend'])))
         multi.append(case)
@@ -1042,17 +1168,69 @@ def run(ctx):
             # cleanup() never raises in the model; the implementation case is still compared (cannot match)
             ctx.fail('cleanup-raised,backend=%s' % case['backend'].split(':')[0], 'cleanup() raised %s' % obs['raised'],
                      {'case': case, 'observed': obs})
-        levels = set(l for t in case['tasks'] for l in t['levels'])
-        for e, alive in zip(case['entries'], obs['survived']):
-            if e['kind'] == 'tile' and not alive and e['l'] not in levels:
-                ctx.fail('removed-too-much,several-tasks', 'tile of a level no task selected was removed: %r' % (e,),
-                         {'case': case, 'observed': obs})
-                break
+        else:
+            oracle_several(ctx, case, obs)
         terms.append(multi_lit(case, obs))
         descr.append({'case': case, 'implementation': obs})
     ctx.corr_check('cleanup_several_tasks', 'Cleanup',
                    'backend * pyramid * list (task * list bbox * list coord) * list entry * list bool', terms,
                    'check_multi %d' % Q, lambda i: descr[i], shard=60)
+    # 2e. tasks built by the real configuration loader from mapproxy.yaml + seed.yaml, then cleaned
+    lcases = []
+    for b in ('file:tc', 'sqlite', 'file:tms', 'compact2'):
+        for kind in ('complete', 'bbox', 'border'):
+            c = gen_case(rng, backend=b, grid=rng.choice(['g3', 'g4w', 'odd']),
+                         force={'complete': kind == 'complete', 'border_polygon': kind == 'border'})
+            lcases.append(c)
+    for _ in range(ctx.n(10, 150)):
+        lcases.append(gen_case(rng, backend=rng.choice(['file:tc', 'file:mp', 'file:tms', 'file:quadkey', 'file:arcgis',
+                                                        'sqlite', 'gpkglevel', 'compact2']),
+                               grid=rng.choice(['g3', 'g4w', 'odd'])))
+    for c in lcases:
+        c['via_loader'] = True
+        c.pop('tz', None)
+        c['entries'] = [dict((k, v) for k, v in e.items() if k != 'vanish') for e in c['entries']]
+        if not c['task']['all'] and not supports_timestamp(c['backend']):
+            c['task']['all'] = True        # the loader refuses remove_before for these
+        c['guarded'] = True
+    run_cases(ctx, lcases, 'loader_tasks')
+    # 2f. names of the per-level sqlite files: which files of the directory go when one level is removed entirely
+    from common import slit
+    terms, descr = [], []
+    for _ in range(ctx.n(12, 80)):
+        from mapproxy.cache.mbtiles import MBTilesLevelCache
+        d = ctx.tmpdir('c12names')
+        l = rng.choice([0, 1, 1, 2, 3, 9, 10, 11, 12, 19, 20, 21, 100, 101])
+        pool = sorted(set([l, l * 10, l * 10 + 1, l * 10 + 9, l // 10, l + 1, 1, 10, 11, 19, 100, 110] + [rng.randrange(0, 130) for _ in range(3)]))
+        names = []
+        for k in pool:
+            names.append('%d.mbtile' % k)
+            if rng.random() < 0.5:
+                names.append('%d.mbtile-%s' % (k, rng.choice(['wal', 'shm', 'journal'])))
+        names += ['%d.mbtileX' % l, 'x%d.mbtile' % l, '%d-1.mbtile' % l, '%d' % l, '%d.mbtil' % l]
+        for n in names:
+            with open(os.path.join(d, n), 'w') as f:
+                f.write('x')
+        cache = MBTilesLevelCache(d)
+        fname = os.path.basename(cache._get_level(l).mbtile_file)
+        try:
+            cache.remove_level_tiles_before(l, remove_all=True)
+            gone = [not os.path.exists(os.path.join(d, n)) for n in names]
+        except Exception as ex:
+            ctx.problem('harness', 'remove_level_tiles_before raised %r' % (ex,), {'level': l, 'names': names})
+            continue
+        shutil.rmtree(d, ignore_errors=True)
+        ctx.case(('names', l, tuple(names)), True, None)
+        for n, g in zip(names, gone):
+            if g and not (n == '%d.mbtile' % l or n.startswith('%d.mbtile-' % l)):
+                ctx.fail('removed-too-much,level-files', 'removing level %d of a per-level sqlite cache unlinked %s' % (l, n),
+                         {'level': l, 'files': names, 'unlinked': [n2 for n2, g2 in zip(names, gone) if g2]})
+                break
+        terms.append('(%s, %s, %s, %s)' % (zlit(l), slit(fname), llit(names, slit), llit(gone, blit)))
+        descr.append({'level': l, 'level_file': fname, 'files': names, 'unlinked': gone})
+    ctx.corr_check('level_files', 'Cleanup', 'Z * string * list string * list bool', terms,
+                   "fun c => let '(l, f, names, gone) := c in String.eqb (level_file l) f && "
+                   "bools_eqb (map (unlinked_with_level l) names) gone", lambda i: descr[i])
     # 2c. directory strategy with a progress store: interrupted at a level boundary, then continued
     terms, descr = [], []
     rcases = []
